@@ -34,7 +34,11 @@ let rec parse_node (toks : string list) : node * string list =
   | t :: rest ->
     let body = String.sub t 1 (String.length t - 1) in
     (match t.[0] with
-     | 'T' -> parse_node rest     (* a node of a typed engine: the value follows; read as a plain node *)
+     | 'T' ->                      (* a node of a typed engine: the value follows *)
+       (match parse_node rest with
+        | (NMap (t, _), r) -> (NFMap t, r)
+        | (NList x, r) -> (NFList x, r)
+        | other -> other)
      | 'n' -> (NNull, rest)
      | 't' -> (NBool true, rest)
      | 'f' -> (NBool false, rest)
@@ -226,7 +230,13 @@ let () =
               let wc = if w = "" then '.' else w.[0] in
               Buffer.add_char model_tr wc;
               if !cls = "" && oc <> wc then
-                set (if oc = 'P' then "legal_call_panics"
+                set (if oc = 'P' && starts_with engine "tgen" &&
+                        (match o with
+                         | AssignNode (NMap ((_ :: _ as t), _)) ->
+                           List.for_all (fun (_, c) -> kind_of c = KMap) t   (* a map of structs, not a Msg3 *)
+                         | _ -> false)
+                     then "gen_map_assignnode_foreign_panic"
+                     else if oc = 'P' then "legal_call_panics"
                      else if wc = 'r' && oc = '.' then "dup_accepted"
                      else if wc = 'r' then "dup_misreported"
                      else if wc = 'w' then "bad_kind_misreported"
